@@ -417,6 +417,10 @@ def render_enum(e):
             lines.append("    #[cfg(all())]")
         elif v["cfg"] == "off":
             lines.append("    #[cfg(any())]")
+        elif v["cfg"] == "attr_keep":
+            lines.append("    #[cfg_attr(any(), cfg(any()))]")   # predicate false: the inner cfg never applies, variant present
+        elif v["cfg"] == "attr_on":
+            lines.append("    #[cfg_attr(all(), cfg(all()))]")   # predicate true, condition true: present
         lines.append("    %s = %s," % (v["name"], v["discr_lit"] if "discr_lit" in v else discr_str(e, v)))
     lines.append("}")
     return lines
@@ -1077,6 +1081,10 @@ def fam_enum(tier, seed):
     # conditional enums with cfg-gated variants (present and absent)
     out.append(mk_enum("en_cond", "Cnd2a", 2, [0, 1, 1, 2, 3], exh="conditional", cfgs={1: "on", 2: "off", 3: "off", 4: "on"}))
     out.append(mk_enum("en_cond", "Cnd2b", 2, [0, 1, 2, 3], exh="conditional", cfgs={3: "on"}))
+    # variants gated through cfg_attr: with a false predicate the inner cfg does not apply and the variant stays
+    out.append(mk_enum("en_cond", "CndA2", 2, [0, 1, 2, 3], exh="conditional", cfgs={1: "attr_keep", 3: "attr_on"}))
+    out.append(mk_enum("en_cond", "CndA3", 3, [0, 2, 5, 6], exh="conditional", cfgs={1: "attr_keep", 2: "on", 3: "attr_keep"}))
+    out.append(mk_enum("en_cond", "CndA8", 8, [0, 9, 200], exh="conditional", cfgs={2: "attr_keep"}))
     out.append(mk_enum("en_cond", "Cnd1", 1, [0, 1, 1], exh="conditional", cfgs={1: "on", 2: "off"}))
     out.append(mk_enum("en_cond", "Cnd8", 8, [0, 255, 7], exh="conditional", cfgs={2: "off"}))
     out.append(mk_enum("en_cond", "Cnd16", 16, [0, 65535, 7], exh="conditional"))
